@@ -79,4 +79,12 @@ def polesInside [LT α] [DecidableLT α] (reals : List α) (pairs : List (α × 
 /-- Levinson prediction error from the reflection coefficients: r₀ · Π (1 − k_m²) -/
 def errorSpec (r0 : α) (ks : List α) : α := ks.foldl (fun e k => e * (1 - k * k)) r0
 
+/-- what the step-down of `stepUp ks` must yield, in the words of the property: the reflection
+    coefficients in the order given (`l` = `ks` read last first) up to and INCLUDING the first one
+    with `k² = 1`, where the recursion breaks down (`true` = ParCorError); all of them and `false`
+    when there is none.  Equality with 1 is exact: no tolerance. -/
+def cutAtUnit : List α → List α × Bool
+  | [] => ([], false)
+  | k :: rest => if k * k = 1 then ([k], true) else (k :: (cutAtUnit rest).1, (cutAtUnit rest).2)
+
 end ALV.C11
